@@ -36,7 +36,11 @@ VecInDomain(e) ==
        ELSE ValidFam(e)
     /\ e.sc \in {-9, -3, 0, 3, 9}
     /\ Len(e.cols) \in 1..3
-    /\ \A j \in 1..Len(e.cols) : ValidVec(e.cols[j]) /\ Len(e.cols[j]) = Len(e.cols[1]) /\ ~Degenerate(e.op, e.cols[j])
+    /\ \A j \in 1..Len(e.cols) : ValidVec(e.cols[j]) /\ Len(e.cols[j]) = Len(e.cols[1])
+    /\ e.layout \in LayoutSet /\ e.err \in ErrSet
+    \* whole-tensor operators on a matrix: the single logged column is the row-major flattening of a 2 x 2 input
+    /\ e.mshape \in ShapeSet
+    /\ (e.mshape # <<>> => e.op \in WholeTensorOps /\ Len(e.cols) = 1 /\ Len(e.cols[1]) = e.mshape[1] * e.mshape[2])
     /\ (Len(e.cols) > 1 => e.op \in ColumnwiseOps)
     /\ DOMAIN e.runs \subseteq {"direct", "dispatch"} /\ DOMAIN e.runs # {}
 
@@ -67,7 +71,8 @@ NormSparseApprox4(y4, v, k) ==
 ValueOK(e, r, j) ==
     LET v == e.cols[j]
         y == e.runs[r].out[j] IN
-    IF Rational(e.op, e.k, v) THEN \E x \in AllowedRun(e, r, j) : CloseTo(y, x)
+    IF Degenerate(e.op, v) THEN TRUE          \* any feasible point (clause Feasible) is a nearest one
+    ELSE IF Rational(e.op, e.k, v) THEN \E x \in AllowedRun(e, r, j) : CloseTo(y, x)
     ELSE IF e.op = "l2" THEN L2BlockApprox4(e.runs[r].out4[j], v, e.p, e.q)
     ELSE NormSparseApprox4(e.runs[r].out4[j], v, e.k)
 
@@ -103,6 +108,8 @@ VecVerdict(e) ==
              n == Len(e.cols[1])
              J == 1..nc IN
          IF \E r \in R : e.runs[r].raised THEN "Raised"
+         \* the caller's array must be bit-identical after the call
+         ELSE IF \E r \in R : e.runs[r].mutated THEN "InputUntouched"
          ELSE IF \E r \in R : e.runs[r].size # nc * n THEN "Shape"
          ELSE IF \E r \in R : ~IsSeqOfIntSeqs(e.runs[r].out, nc, n) \/ ~IsSeqOfIntSeqs(e.runs[r].out4, nc, n) THEN "Finite"
          ELSE IF \E r \in R : ~Within(e.runs[r].out, MaxY) THEN "Range"
@@ -120,6 +127,7 @@ MatInDomain(e) ==
     /\ e.m \in {2, 3} /\ e.n \in {2, 3}
     /\ ValidMat(e)
     /\ e.M = MatOf(e)
+    /\ e.layout \in LayoutSet /\ e.err \in ErrSet
     /\ DOMAIN e.runs = {"direct"}
 
 MatClose(Y, num, den) ==
@@ -129,6 +137,7 @@ MatVerdict(e) ==
     IF ~MatInDomain(e) THEN "InDomain"
     ELSE LET run == e.runs["direct"] IN
          IF run.raised THEN "Raised"
+         ELSE IF run.mutated THEN "InputUntouched"
          ELSE IF run.size # e.m * e.n THEN "Shape"
          ELSE IF ~IsIntMat(run.out, e.m, e.n) THEN "Finite"
          ELSE IF ~Within(run.out, MaxYM) THEN "Range"
